@@ -443,6 +443,14 @@ def gen_batch(rng, b, nq):
         text = r.g(g)
         queries.append({"text": text, "vars": r.vars, "mono": monotone(g)})
     keys = gen_keys(rng)
+    if rng.random() < 0.35:
+        # a query with many solutions first, and a keyboard that uses `f` (next five) on it
+        n = rng.choice([6, 7, 9, 11, 12, 16])
+        v = rng.choice(VARNAMES)
+        g = ('call', 'member', [V(v), lst([I(k) for k in range(n)])])
+        r = Render(rng)
+        queries.insert(0, {"text": r.g(g), "vars": r.vars, "mono": True})
+        keys = rng.choice(["f.", ";f.", "f;f.", "wf.", ";;;f;.", "ff.", "hf;;."]) + keys
     return {"id": b, "prog": prog, "queries": queries, "keys": keys}
 
 
